@@ -30,15 +30,42 @@ func mapLookupPointerDerefs(f *ssa.Function) []elemDeref {
 		if p == nil {
 			return
 		}
-		lk, ok := p.(*ssa.Lookup)
-		if !ok || lk.CommaOk {
-			return
+		isNilableLookup := func(v ssa.Value) bool {
+			lk, ok := v.(*ssa.Lookup)
+			if !ok || lk.CommaOk {
+				return false
+			}
+			mt, isMap := lk.X.Type().Underlying().(*types.Map)
+			if !isMap {
+				return false
+			}
+			_, isPtr := mt.Elem().Underlying().(*types.Pointer)
+			return isPtr
 		}
-		mt, isMap := lk.X.Type().Underlying().(*types.Map)
-		if !isMap {
-			return
-		}
-		if _, isPtr := mt.Elem().Underlying().(*types.Pointer); !isPtr {
+		if !isNilableLookup(p) {
+			// the pointer may be a parameter of an unexported helper that some caller feeds with such a lookup
+			// (parseResult(res.Item[keyRecord])) without having tested it
+			pp, isP := p.(*ssa.Parameter)
+			if !isP || f.Parent() != nil || f.Object() == nil || f.Object().Exported() || knownNonNil(p, i.Block()) {
+				return
+			}
+			idx := -1
+			for k, q := range f.Params {
+				if q == pp {
+					idx = k
+				}
+			}
+			buildCallSiteIndex(f)
+			fed := false
+			for _, site := range callSiteIndex[orig(f)] {
+				args := site.Common().Args
+				if idx >= 0 && idx < len(args) && isNilableLookup(args[idx]) && !knownNonNil(args[idx], site.Block()) {
+					fed = true
+				}
+			}
+			if fed {
+				out = append(out, elemDeref{i, p})
+			}
 			return
 		}
 		if knownNonNil(p, i.Block()) {
